@@ -45,6 +45,13 @@ func linkedIPHandler(
 
 		// Make sure that all requests are marked with our user agent.
 		r.Out.Header.Set(httphdr.UserAgent, agdhttp.UserAgent())
+
+		// Make sure that the headers set by the proxy are always sent.  The
+		// hop-by-hop headers are removed from the outgoing request before
+		// Rewrite is called, so a client could otherwise strip them by
+		// listing their names in its Connection header.
+		r.Out.Header.Set(httphdr.XConnectingIP, r.In.Header.Get(httphdr.XConnectingIP))
+		r.Out.Header.Set(httphdr.XRequestID, r.In.Header.Get(httphdr.XRequestID))
 	}
 
 	// Use largely the same transport as http.DefaultTransport, but with a
